@@ -494,11 +494,18 @@ func (p *PoolAllocator) AllocateWithOptions(ctx context.Context, opts AllocateOp
 
 // Release releases a subscriber's allocation and removes from store.
 func (p *PoolAllocator) Release(ctx context.Context, subscriberID string) error {
-	if err := p.allocator.Release(subscriberID); err != nil {
+	// An unknown subscriber is reported without touching the store
+	if p.allocator.Lookup(subscriberID) == nil {
+		return p.allocator.Release(subscriberID)
+	}
+
+	// Remove the record first: if that fails nothing has changed, allocator and
+	// store still agree and the caller can retry
+	if err := p.store.RemoveAllocation(ctx, p.poolID, subscriberID); err != nil {
 		return err
 	}
 
-	return p.store.RemoveAllocation(ctx, p.poolID, subscriberID)
+	return p.allocator.Release(subscriberID)
 }
 
 // Lookup returns the allocation for a subscriber.
